@@ -175,6 +175,32 @@ func legA(c *core.Ctx) {
 			c.Add("masked_runtime_errors", 1)
 		}
 	}
+	// the byte-order-mark look-ahead of the reader entry points: the BFS merges
+	// "a token that starts with 0xEF" with every other token, so the prefixes of
+	// the mark (and near misses) are fed under every split into reads on their own
+	for _, pre := range [][]byte{{0xEF}, {0xEF, 0xBB}, {0xEF, 0xBB, 0xBF}, {0xEF, 0x00}, {0xEF, 0xBB, 0x00}, {0xEF, 0xEF}} {
+		for _, suf := range []string{"", "1", "[1]", "a ", "\"x\"", "{\"a\":1}"} {
+			in := append(append([]byte{}, pre...), suf...)
+			for mask := 0; mask < 1<<uint(len(in)-1) && mask < 64; mask++ {
+				// bit i of mask set = a read boundary after byte i (the first six bytes)
+				var chunks [][]byte
+				start := 0
+				for i := 0; i < len(in)-1; i++ {
+					if i < 6 && mask>>uint(i)&1 == 1 {
+						chunks = append(chunks, in[start:i+1])
+						start = i + 1
+					}
+				}
+				chunks = append(chunks, in[start:])
+				o := m.Feed(chunks, cfg, false, false)
+				c.Eval()
+				c.Add("bom_prefix_runs", 1)
+				if o.Panic != nil {
+					report("reader", "bom-look-ahead", chunks, 0, o)
+				}
+			}
+		}
+	}
 	e.Run()
 	for _, h := range e.Harness {
 		if m.Strict {
